@@ -21,10 +21,12 @@ Lemma unknown_large_fixed : exists t,
   hdr_size_field w_unknown_large = size_box t.
 Proof. exists (treeof w_unknown_large). vm_compute. repeat split. Qed.
 
-(* still refuted: Size() of hdlr assumes a 4-character HandlerType, EncodeSW writes the string as it is
-   (reachable through the exported field only, not through the decoder) *)
+(* finding C02-K3, repaired by repo commit 3502d85: Size() of hdlr assumed a 4-character HandlerType while EncodeSW
+   writes the string as it is (reachable through the exported field only, not through the decoder); before the
+   repair `lenN enc < size_box t_hdlr_bad` *)
 Definition t_hdlr_bad : mbox := MLeaf (mkHdr n_hdlr 0 8) (LHdlr 0 0 0 [118;105] [] false) [zeros 12].
-Lemma hdlr_refuted : exists enc, encode_w t_hdlr_bad = Ok enc /\ lenN enc < size_box t_hdlr_bad.
+Lemma hdlr_fixed : exists enc, encode_w t_hdlr_bad = Ok enc /\ encode_sw t_hdlr_bad = Ok enc /\
+  lenN enc = size_box t_hdlr_bad /\ hdr_size_field enc = lenN enc.
 Proof. exists (match encode_w t_hdlr_bad with Ok e => e | _ => [] end). vm_compute. repeat split. Qed.
 
 Definition ex_tree : mbox := ex_moof_tree.
